@@ -280,6 +280,48 @@ print(run(256)); print(run(257)); print(run(300))
     return out
 
 
+def _memory_case(L: int) -> Any:
+    from proof_generation import pattern as P
+    from proof_generation.proof import ProofExp
+
+    leaves = [P.App(P.EVar(i % 256), P.EVar(i % 256)) for i in range(L)]
+    while len(leaves) > 1:
+        nxt = [P.Implies(leaves[j], leaves[j + 1]) for j in range(0, len(leaves) - 1, 2)]
+        if len(leaves) % 2:
+            nxt.append(leaves[-1])
+        leaves = nxt
+    ax = leaves[0]
+    res = {}
+    for opt in (False, True):
+        pe = ProofExp(axioms=[ax], claims=[ax])
+        pe.add_proof_expression(pe.load_axiom(ax))
+        try:
+            it = serialize(pe, opt)
+            pub, cl, m, inv, bij = decode(it)
+            ok = len(pub) == 1 and O.eq(pub[0], O.expand(ax)) and len(cl) == 1 and O.eq(cl[0], O.expand(ax)) and not m.claims
+            res[opt] = 'ok' if ok else 'wrong-output'
+        except Exception as e:
+            res[opt] = f'raised {type(e).__name__}: {str(e)[:80]}'
+    if res[False] != 'ok' or res[True] != 'ok':
+        return {'sig': f'C03.memory-slots[leaves={L}|plain={res[False].split(":")[0]}|optimised={res[True].split(":")[0]}]', 'path': 'inline: vf.props.c03.concrete_memory_limit', 'detail': f'axiom = balanced implication tree over {L} leaves App(x_i, x_i), claim = axiom, proof = load_axiom: optimize=False {res[False]}, optimize=True {res[True]}'}
+    return None
+
+
+def concrete_memory_limit() -> list:
+    """concrete (not symbolic) boundary test of the memoisation plan: one axiom that is a balanced implication tree over
+    App(x_i, x_i), i < L, so that about L patterns are worth memoising; around L = 256 the optimised serialisation must
+    stay inside the 256 memory slots a Load can address and publish the declared axiom and claim, as the plain one does"""
+    import multiprocessing as mp
+
+    patches.shadow_bytes(False)
+    try:
+        with mp.get_context('fork').Pool(6) as pool:
+            res = pool.map(_memory_case, (200, 254, 255, 256, 257, 300))
+    finally:
+        patches.shadow_bytes(True)
+    return [r for r in res if r]
+
+
 def levels(tier: str) -> list[dict]:
     M = 'vf.props.c03'
     q = tier == 'quick'
@@ -298,6 +340,10 @@ def levels(tier: str) -> list[dict]:
 def run(tier: str) -> dict:
     res = common.run_levels(common.tiered(levels, tier))
     dv = concrete_symbol_limit()
-    res['direct_violations'] = dv
-    res['samples'] = [{'concrete_test': '256 / 257 / 300 distinct symbols through the real bytes()', 'violations': len(dv)}]
+    dm = concrete_memory_limit()
+    res['direct_violations'] = dv + dm
+    res['samples'] = [
+        {'concrete_test': '256 / 257 / 300 distinct symbols through the real bytes()', 'violations': len(dv)},
+        {'concrete_test': 'memoisation plan around the 256-slot limit (axiom with 128..300 repeated sub-patterns), both optimise settings', 'violations': len(dm)},
+    ]
     return res
